@@ -525,44 +525,88 @@ func checkMtree(c *Ctx, r *Report, pa *provAnalysis) {
 	}
 	want := map[string]string{"": "Destination", "time": "Time", "mode": "Mode", "size": "Size", "md5digest": "MD5", "sha256digest": "SHA256", "link": "LinkSource"}
 	n := 0
+	bound := map[string]bool{}
+	fieldOf := func(v ssa.Value) string {
+		v = stripIface(v)
+		if ld, ok := v.(*ssa.UnOp); ok {
+			if fa, ok := ld.X.(*ssa.FieldAddr); ok {
+				return fieldName(fa.X.Type(), fa.Field)
+			}
+		}
+		return ""
+	}
+	keyRe := regexp.MustCompile(`(time|mode|size|md5digest|sha256digest|link)=$`)
 	for _, fn := range c.ModFuncs {
 		if c.funcPkgPath(fn) != pk.PkgPath {
 			continue
 		}
 		forEachInstr(fn, func(in ssa.Instruction) {
-			call, ok := in.(*ssa.Call)
-			if !ok || !calleeIs(call, "fmt", "", "Fprintf") {
-				return
-			}
-			f := constOrEmpty(call.Call.Args[1])
-			if !strings.Contains(f, "time=") || !strings.Contains(f, "type=") {
-				return
-			}
-			n++
-			ms := verbRe.FindAllStringSubmatch(f, -1)
-			elems := variadicOrdered(call.Call.Args[2])
-			construct := fmt.Sprintf("archlinux mtree line format#%d", n)
-			if len(ms) != len(elems) {
-				r.Fail("F8", construct, c.instrPos(call), fmt.Sprintf("%d verbs but %d arguments", len(ms), len(elems)))
-				return
-			}
-			for i, m := range ms {
-				v := elems[i]
-				if mi, ok := v.(*ssa.MakeInterface); ok {
-					v = mi.X
+			switch x := in.(type) {
+			case *ssa.BinOp:
+				// "... link=" + me.LinkSource
+				if x.Op != token.ADD {
+					return
 				}
-				field := ""
-				if ld, ok := v.(*ssa.UnOp); ok {
-					if fa, ok := ld.X.(*ssa.FieldAddr); ok {
-						field = fieldName(fa.X.Type(), fa.Field)
+				left := ""
+				switch l := x.X.(type) {
+				case *ssa.Const:
+					left = constOrEmpty(l)
+				case *ssa.BinOp:
+					if k, ok := l.Y.(*ssa.Const); ok && l.Op == token.ADD {
+						left = constOrEmpty(k)
 					}
 				}
-				key := m[1]
-				r.Check(field == want[key], "F8", fmt.Sprintf("%s: key %q", construct, key), c.instrPos(call), fmt.Sprintf("bound to field %q, expected %q", field, want[key]))
+				m := keyRe.FindStringSubmatch(left)
+				if m == nil {
+					return
+				}
+				f := fieldOf(x.Y)
+				if f == "" {
+					return
+				}
+				n++
+				bound[m[1]] = true
+				r.Check(f == want[m[1]], "F8", fmt.Sprintf("archlinux mtree line: key %q (concatenation in %s)", m[1], c.funcKey(fn)), c.instrPos(x), fmt.Sprintf("bound to field %q, expected %q", f, want[m[1]]))
+			case *ssa.Call:
+				first := -1
+				switch {
+				case calleeIs(x, "fmt", "", "Fprintf"):
+					first = 1
+				case calleeIs(x, "fmt", "", "Sprintf"):
+					first = 0
+				default:
+					return
+				}
+				f := constOrEmpty(x.Call.Args[first])
+				if !strings.Contains(f, "time=") && !strings.Contains(f, "type=") && !strings.Contains(f, "digest=") {
+					return
+				}
+				n++
+				ms := verbRe.FindAllStringSubmatch(f, -1)
+				elems := variadicOrdered(x.Call.Args[first+1])
+				construct := fmt.Sprintf("archlinux mtree line format#%d", n)
+				if len(ms) != len(elems) {
+					r.Fail("F8", construct, c.instrPos(x), fmt.Sprintf("%d verbs but %d arguments", len(ms), len(elems)))
+					return
+				}
+				for i, m := range ms {
+					field := fieldOf(elems[i])
+					key := m[1]
+					if _, known := want[key]; !known {
+						continue
+					}
+					bound[key] = true
+					r.Check(field == want[key], "F8", fmt.Sprintf("%s: key %q", construct, key), c.instrPos(x), fmt.Sprintf("bound to field %q, expected %q", field, want[key]))
+				}
 			}
 		})
 	}
-	r.Floor("F8", n, 3)
+	for key := range want {
+		if key != "" && !bound[key] {
+			r.Fail("F8", "archlinux mtree line: key "+key, c.pos(pk.Package.Pos()), "no line format binds this key to a field of the entry")
+		}
+	}
+	r.Floor("F8", n, 2)
 	checkMtreeLines(c, r)
 	// digests go to the field of their own algorithm; sizes come from one value
 	for _, fn := range sortedFuncs(c, c.Reach(pk.Package)) {
@@ -579,20 +623,7 @@ func checkMtree(c *Ctx, r *Report, pa *provAnalysis) {
 			if name != "MD5" && name != "SHA256" {
 				return
 			}
-			algo := ""
-			if sum, ok := st.Val.(*ssa.Call); ok {
-				if recv := callReceiver(sum); recv != nil {
-					rv := recv
-					if mi, ok := rv.(*ssa.MakeInterface); ok {
-						rv = mi.X
-					}
-					if hc, ok := rv.(*ssa.Call); ok {
-						if o := calleeObj(hc); o != nil {
-							algo = hashCtors[qualifiedName(o)]
-						}
-					}
-				}
-			}
+			algo := digestAlgoOf(c, st.Val, 0)
 			want := map[string]string{"MD5": "md5", "SHA256": "sha256"}[name]
 			r.Check(algo == want, "F8", fmt.Sprintf("archlinux mtree %s digest in %s", name, c.funcKey(fn)), c.instrPos(st), fmt.Sprintf("field %s is fed from a %q hash, expected %q", name, algo, want))
 		})
@@ -844,6 +875,10 @@ func checkSizes(c *Ctx, r *Report, pa *provAnalysis) {
 							ok = true
 						}
 					}
+					// the entry's size handed back by the helper that copied it
+					if b, isI := bo.Y.Type().Underlying().(*types.Basic); isI && b.Info()&types.IsInteger != 0 && pa.Of(bo.Y).has("FileInfo.Size") {
+						ok = true
+					}
 				})
 			}
 		}
@@ -862,16 +897,9 @@ func checkMtreeLines(c *Ctx, r *Report) {
 	mt := c.NamedType(strings.TrimPrefix(pk.PkgPath, modPath+"/"), "MtreeEntry")
 	var wt *ssa.Function
 	for _, fn := range sortedFuncs(c, c.Reach(pk.Package)) {
-		if fn.Signature.Recv() != nil && mt != nil && types.Identical(derefType(fn.Signature.Recv().Type()), mt) {
-			writes := false
-			forEachInstr(fn, func(in ssa.Instruction) {
-				if call, ok := in.(*ssa.Call); ok && calleeIs(call, "fmt", "", "Fprintf") {
-					writes = true
-				}
-			})
-			if writes {
-				wt = fn
-			}
+		// the io.WriterTo of the entry type
+		if fn.Signature.Recv() != nil && mt != nil && types.Identical(derefType(fn.Signature.Recv().Type()), mt) && fn.Name() == "WriteTo" {
+			wt = fn
 		}
 	}
 	if wt == nil || mt == nil {
@@ -893,10 +921,66 @@ func checkMtreeLines(c *Ctx, r *Report) {
 		fr := ev.Explore(wt, make([]AV, len(wt.Params)))
 		must := fr != nil && fr.MustReach(func(in ssa.Instruction, _ *Frame) bool {
 			call, ok := in.(*ssa.Call)
-			return ok && (calleeIs(call, "fmt", "", "Fprintf") || calleeIs(call, "fmt", "", "Fprint") || calleeIs(call, "io", "", "WriteString"))
+			if !ok {
+				return false
+			}
+			if calleeIs(call, "fmt", "", "Fprintf") || calleeIs(call, "fmt", "", "Fprint") || calleeIs(call, "io", "", "WriteString") {
+				return true
+			}
+			return call.Call.IsInvoke() && call.Call.Method.Name() == "Write"
 		})
 		r.Check(must, "F8-line", fmt.Sprintf("archlinux mtree line for a shipped entry of type %q", typ), c.pos(wt.Pos()),
 			"every path through the line writer must write a line for this type: the payload writer ships such entries, an entry without a line is missing from .MTREE")
 	}
 	r.Floor("F8-line", n, 6)
+}
+
+// digestAlgoOf: the hash algorithm whose Sum a value is - directly
+// (h.Sum(nil) on a hash made by a known constructor) or as the result of a
+// module helper all of whose non-nil returns are such sums of one algorithm.
+func digestAlgoOf(c *Ctx, v ssa.Value, depth int) string {
+	if depth > 3 || v == nil {
+		return ""
+	}
+	switch x := v.(type) {
+	case *ssa.Call:
+		if recv := callReceiver(x); recv != nil {
+			rv := stripIface(recv)
+			if hc, ok := rv.(*ssa.Call); ok {
+				if o := calleeObj(hc); o != nil {
+					return hashCtors[qualifiedName(o)]
+				}
+			}
+		}
+	case *ssa.Extract:
+		call, ok := x.Tuple.(*ssa.Call)
+		if !ok {
+			return ""
+		}
+		sc := call.Call.StaticCallee()
+		if sc == nil || sc.Blocks == nil || !c.isModuleFunc(sc) {
+			return ""
+		}
+		algo := ""
+		for _, b := range sc.Blocks {
+			ret, ok := b.Instrs[len(b.Instrs)-1].(*ssa.Return)
+			if !ok {
+				continue
+			}
+			res := retResults(ret)
+			if x.Index >= len(res) {
+				return ""
+			}
+			if k, isK := res[x.Index].(*ssa.Const); isK && k.IsNil() {
+				continue // the failure return
+			}
+			a := digestAlgoOf(c, res[x.Index], depth+1)
+			if a == "" || algo != "" && a != algo {
+				return ""
+			}
+			algo = a
+		}
+		return algo
+	}
+	return ""
 }
